@@ -97,6 +97,8 @@ func runC01(r *Run) {
 	// behind: the phase wiring of Resolve and the per-type effect rows (shared with C03)
 	r.checkFullThenUpdate(P)
 	r.checkResolveFlow(P)
+	r.checkCandidateNoTrace(P, "OperationProcessor.applyFirstValidOperation")
+	r.checkCandidateNoTrace(P, "OperationProcessor.applyFirstValidCreateOperation")
 	r.checkEffectTable(P, false)
 	// an operation that is not authorised must not change the result by its mere presence: a commitment counts as
 	// consumed only once a state was produced from it (shared with C03), and supplied operations are dropped only as
